@@ -79,7 +79,9 @@ func ruleOpMaps(p *Prog, r *Result) {
 	}
 	ops := p.typedConsts("Operator")
 	for s, o := range s2o {
-		r.add(o2s[o] == s, "s2o|"+s, "", fmt.Sprintf("StringToOperator[%q]=%s, OperatorToString[%s]=%q", s, o, o, o2s[o]))
+		// an alias spelling is fine as long as the canonical spelling of its operator parses back to the same operator
+		canon, has := o2s[o]
+		r.add(has && s2o[canon] == o, "s2o|"+s, "", fmt.Sprintf("StringToOperator[%q]=%s, OperatorToString[%s]=%q, StringToOperator[%q]=%s", s, o, o, canon, canon, s2o[canon]))
 	}
 	for o, s := range o2s {
 		r.add(s2o[s] == o, "o2s|"+o, "", fmt.Sprintf("OperatorToString[%s]=%q, StringToOperator[%q]=%s", o, s, s, s2o[s]))
@@ -130,6 +132,7 @@ func rulePrecTable(p *Prog, r *Result) {
 		r.undecided("anchor: StringToOperator literal not found")
 		return
 	}
+	o2s, _ := p.mapLiteral("OperatorToString")
 	opTok, ok := p.constOf("OPERATOR")
 	if !ok {
 		r.undecided("anchor: token kind OPERATOR not found")
@@ -189,6 +192,14 @@ func rulePrecTable(p *Prog, r *Result) {
 		if s == "!" {
 			r.add(vals[0] == lowest, "prec|!", p.Pos(fn.Pos()), "`!` is unary: no binary precedence")
 			continue
+		}
+		if _, known := class[s]; !known {
+			// an alias binds like the canonical spelling of its operator
+			if canon, has := o2s[s2o[s]]; has && canon != s {
+				if c, k := class[canon]; k {
+					class[s] = c
+				}
+			}
 		}
 		if _, known := class[s]; !known {
 			r.hit("prec|"+s, p.Pos(fn.Pos()), "operator spelling unknown to the documented precedence table S-PREC")
@@ -396,15 +407,20 @@ func ruleKWTable(p *Prog, r *Result) {
 	})
 	r.add(lower, "lowercase", p.Pos(fn.Pos()), "the word is classified (and reported) after strings.ToLower of the whole word: keywords and operator words are case-insensitive")
 	// Data of the token = the classified word
-	dataOK := false
+	dataOK, dataOnly := false, true
 	allInstrs(fn, func(in ssa.Instruction) {
 		if st, ok := in.(*ssa.Store); ok {
-			if o, f, _, ok := fieldOfAddr(st.Addr); ok && o != nil && o.Obj().Name() == "Token" && f == "Data" && st.Val == tag {
-				dataOK = true
+			if o, f, _, ok := fieldOfAddr(st.Addr); ok && o != nil && o.Obj().Name() == "Token" && f == "Data" {
+				if st.Val == tag {
+					dataOK = true
+				} else {
+					dataOnly = false
+				}
 			}
 		}
 	})
 	r.add(dataOK, "data", p.Pos(fn.Pos()), "Token.Data is the case-folded word itself")
+	r.add(dataOnly, "data|only", p.Pos(fn.Pos()), "no arm of the classifier rewrites Token.Data: numbers, floats and names keep the spelling the user wrote (1.50, 1e5 and 007 are not re-formatted)")
 	var ws []string
 	for w := range words {
 		ws = append(ws, w)
@@ -507,6 +523,40 @@ func ruleOp2Table(p *Prog, r *Result) {
 		r.undecided("anchor: current character load (Query[i]) not found")
 		return
 	}
+	idxPhi := idx.(*ssa.Phi)
+	backIdx := -1
+	for i, pr := range L.Header.Preds {
+		if L.Body[pr] {
+			if backIdx >= 0 {
+				r.undecided("scan loop has several back edges")
+				return
+			}
+			backIdx = i
+		}
+	}
+	if backIdx < 0 {
+		r.undecided("scan loop back edge not found")
+		return
+	}
+	leaves := scanLeaves(L, backIdx)
+	// the start-offset variable: the header phi handed to buildToken as the position of a word
+	var offPhi *ssa.Phi
+	if bt := p.Func("buildToken"); bt != nil {
+		for _, in := range L.Header.Instrs {
+			ph, ok := in.(*ssa.Phi)
+			if !ok {
+				continue
+			}
+			for _, ref := range *ph.Referrers() {
+				if c, ok := ref.(*ssa.Call); ok && c.Call.StaticCallee() == bt && len(c.Call.Args) == 2 && c.Call.Args[1] == ssa.Value(ph) {
+					offPhi = ph
+				}
+			}
+		}
+	}
+	if offPhi == nil {
+		r.undecided("anchor: the start-offset variable passed to buildToken was not found among the scan loop's variables")
+	}
 	n := 0
 	twoCovered := map[string]bool{}
 	allInstrs(fn, func(in ssa.Instruction) {
@@ -566,6 +616,50 @@ func ruleOp2Table(p *Prog, r *Result) {
 					if c, ok := constInt(bo.Y); ok && c == 1 {
 						posOK = true
 					}
+				}
+				// look-ahead form: current character s[0], next character s[1], token at the current index, and the
+				// second byte is consumed (the index advances by two on every way from here to the next iteration)
+				curOK, nextOK := false, false
+				for _, a := range atoms {
+					if a.Op == token.EQL {
+						if c, ok := constInt(a.Y); ok {
+							if a.X == char && c == int64(s[0]) {
+								curOK = true
+							}
+							if isNextChar(p, a.X, idx) && c == int64(s[1]) {
+								nextOK = true
+							}
+						}
+					}
+				}
+				if curOK && nextOK && !(prevOK && eqOK) {
+					inLoop := map[*ssa.BasicBlock]bool{}
+					var fill func(b *ssa.BasicBlock)
+					fill = func(b *ssa.BasicBlock) {
+						if inLoop[b] || b == L.Header {
+							return
+						}
+						inLoop[b] = true
+						for _, sc := range b.Succs {
+							fill(sc)
+						}
+					}
+					fill(at)
+					nl, consumed := 0, true
+					for _, lf := range leaves {
+						if !inLoop[lf.pred] {
+							continue
+						}
+						nl++
+						if iv := lf.val[idxPhi]; iv.base != idx || iv.off != 2 {
+							consumed = false
+						}
+					}
+					twoCovered[s] = true
+					r.ok(key+"|chars", p.InstrPos(al), fmt.Sprintf("emitted only when the current character is %q and the look-ahead character is %q", s[0], s[1]))
+					r.add(posV == idx, key+"|pos", p.InstrPos(al), "an operator recognised by look-ahead starts at the current index")
+					r.add(nl > 0 && consumed, key+"|consumed", p.InstrPos(al), "the second byte of an operator recognised by look-ahead is skipped: the index advances by two on every way to the next iteration")
+					return
 				}
 				if prevOK && eqOK {
 					twoCovered[s] = true
@@ -631,6 +725,10 @@ func ruleOp2Table(p *Prog, r *Result) {
 		}
 		// anything else must be text cut out of the query (words, numbers, quoted literals: WORDRESET)
 		if dataV != nil && p.derivesFromField(dataV, "Lexer", "Query", traceOpts{IntoReturns: true, MaxDepth: 2}) {
+			// ... and reports the recorded start offset of the pending text, the variable buildToken receives for words
+			if offPhi != nil {
+				r.add(posV == ssa.Value(offPhi), fmt.Sprintf("tok|cut#%d|pos", n)+tag, p.InstrPos(al), "a token whose text is cut out of the query reports the recorded start offset of that text (the variable passed to buildToken), not the slice start or the scan index")
+			}
 			return
 		}
 		r.hit(fmt.Sprintf("tok|unclassified#%d", n) + tag, p.InstrPos(al), "a token literal in the scanner is neither a constant operator, string(char), string(prev)+c, nor text cut out of the query")
@@ -663,27 +761,44 @@ func ruleOp2Table(p *Prog, r *Result) {
 	r.add(len(missing) == 0, "tok|two-char-coverage", p.Pos(fn.Pos()), fmt.Sprintf("every two-character operator of the operator table is emitted as one token by some arm (missing: %v)", missing))
 	// prev := char at the end of every iteration
 	var prev *ssa.Phi
-	for _, in := range L.Header.Instrs {
-		ph, ok := in.(*ssa.Phi)
-		if !ok {
-			continue
-		}
-		for i, e := range ph.Edges {
-			if L.Body[L.Header.Preds[i]] && e == char {
-				prev = ph
+	for _, lf := range leaves {
+		for h, a := range lf.val {
+			if a.base == char && a.off == 0 {
+				prev = h
 			}
 		}
 	}
 	if prev == nil {
 		r.hit("prev", p.Pos(fn.Pos()), "no loop-carried `previous character` variable that receives the current character")
 	} else {
-		okAll := true
-		for i, e := range prev.Edges {
-			if L.Body[L.Header.Preds[i]] && e != char {
-				okAll = false
+		// the characters the scanner compares the previous character with
+		tested := map[int64]bool{}
+		allInstrs(fn, func(in ssa.Instruction) {
+			if bo, ok := in.(*ssa.BinOp); ok && (bo.Op == token.EQL || bo.Op == token.NEQ) {
+				x, y := bo.X, bo.Y
+				if y == ssa.Value(prev) {
+					x, y = y, x
+				}
+				if x == ssa.Value(prev) {
+					if c, ok := constInt(y); ok {
+						tested[c] = true
+					}
+				}
 			}
+		})
+		okAll := true
+		for _, lf := range leaves {
+			a := lf.val[prev]
+			if a.base == char && a.off == 0 {
+				continue
+			}
+			// an arm that consumed two bytes as one token may leave a constant no arm compares with
+			if c, ok := constInt(a.base); ok && !tested[c+a.off] && lf.val[idxPhi].off == 2 {
+				continue
+			}
+			okAll = false
 		}
-		r.add(okAll, "prev", p.InstrPos(prev), "on every way back to the loop header the previous-character variable is the character just scanned (no iteration skips the update)")
+		r.add(okAll, "prev", p.InstrPos(prev), "on every way back to the loop header the previous-character variable is the character just scanned (no iteration skips the update); after an operator consumed by look-ahead it is a constant that no arm tests")
 	}
 	// the lexer scans the caller's text unchanged
 	for _, nm := range []string{"NewLexer", "NewParser", "NewOptimizer"} {
